@@ -350,7 +350,13 @@ class TransactionManager(Elaboratable):
                         if called_method not in ret:
                             ret.add(called_method)
                             conditional_to_infect.append(called_method)
-                    ret.add(dep)
+                    # transactions nested in dep and simultaneous with it behave like conditionally called, too
+                    if dep not in ret:
+                        ret.add(dep)
+                        conditional_to_infect.append(dep)
+                elif dep in ret and any(rel.end is method and rel.ready_dependent for rel in dep.relations):
+                    # dep is the conditionally called parent from which `method` was infected
+                    continue
                 else:
                     # dep is not ready dependent - semantics unclear
                     raise RuntimeError(
